@@ -7,6 +7,19 @@ VERIF = os.path.dirname(os.path.dirname(os.path.abspath(__file__)))
 ALL = [f"C{i:02d}" for i in range(1, 21)]
 
 CLAIMED = {
+    "C01": dict(
+        text="Coq theorems (closed under the global context) for EVERY model that passes the executable closure checker: each free symbol "
+             "of the full intensity expression is a parameter xor a kinematic variable, every amplitude symbol the intensity sums over has a "
+             "definition, kinematic-variable expressions depend on parameters and final-state momenta only, and hence - for every value type and "
+             "every interpretation of all function heads - the model value is determined by four-momenta and parameter values alone. The checker "
+             "is run inside Coq (vm_compute) on models regenerated from /repo on every run over corpus reactions x configuration lattice "
+             "(alignments, scalar mass, stable ids, couplings, naming flags, permuted topologies, dynamics incl. custom, thinned helicity sets); "
+             "a negative control (custom lineshape with an undefined symbol) must be rejected. The same property is checked with SymPy's "
+             "free_symbols on a larger sample. Universal over models/values; over reactions and configurations it is per generated instance.",
+        note="Coq kernel, vm_compute for the checker; no axioms; bridge/modelgen.py serialiser (symbol identity = name + assumptions); "
+             "reactions x configurations are sampled (22 corpus reactions, seeded lattice), not quantified in Coq.",
+        technique="Coq-verified checker (soundness proved by induction over trees) run on models regenerated from the code; differential SymPy harness",
+        design="6/C01", category="proof"),
     "C20": dict(
         text="Coq theorems about the expression trees regenerated from /repo on every run (Kallen value/symmetry/"
              "factorisation, third Mandelstam variable on any event, Kibble<=0 and indicator=1 on every rest-frame event, "
